@@ -46,6 +46,7 @@ pub fn profile() -> Profile {
     p.wg_override = 4;
     p.ov_sized_array = 3;
     p.struct_helpers = 3;
+    p.ty.len_edges = 1;
     p
 }
 
